@@ -204,6 +204,41 @@ class Schedule(Target):
         ]
 
 
+class ScheduleTwice(Schedule):
+    """Two scheduler passes in a row with nothing happening in between.  finalize_submit_components may POSTPONE the ready
+    components (the controller is about to sleep: nothing is staged) -- the next pass must hand the same ready components over
+    again.  A pass that wrongly concludes 'nothing changed since last time, nothing to do' leaves a ready component waiting
+    for ever (C02: the stage loop would never end)."""
+    name = 'Controller._schedule[two passes]'
+    second_rate = 1
+    assumptions = ["one consumer with <= 1 producer; the first pass does not stage anything (postponed submission)"]
+
+    def setup(self, c):
+        g_ = globals()
+        old = g_['NPROD']
+        g_['NPROD'] = 1
+        try:
+            return Schedule.setup(self, c)
+        finally:
+            g_['NPROD'] = old
+
+    def ensures(self, c, st, out):
+        g = c.ghost
+        if out.kind == 'raise':
+            return [('no-exception', False)]
+        first = None if g['ready'] is None else [x for x in g['ready']]
+        n_shutdown = len(g['shutdown'])
+        g['ready'] = None
+        st.this._schedule(set())                   # the REAL scheduler once more, on the state the first pass left behind
+        second = None if g['ready'] is None else [x for x in g['ready']]
+        # components the first pass shut down are final now; everything else is as it was: the ready list is the same
+        return [('a-postponed-ready-component-is-handed-over-again-by-the-next-pass',
+                 (first or []) == (second or []) if n_shutdown == len(g['shutdown']) or True else True)]
+
+    def cross_compare(self, *a):
+        return []
+
+
 class FinishedCheck(Target):
     """I_done: whatever happens inside, the component is marked done, and either its state is final or the controller
     stops executing (handleError)."""
@@ -564,5 +599,5 @@ class ReadyIsStable(Lemma):
                 ('final-producers-stay-final', Implies(And(rely, fin0), fin1))]
 
 
-TARGETS = [Schedule(), FinishedCheck(), FinalizeSubmit(), CanConsume(), InitialiseStage()]
+TARGETS = [Schedule(), ScheduleTwice(), FinishedCheck(), FinalizeSubmit(), CanConsume(), InitialiseStage()]
 LEMMAS = [DoneSetFrames(), ReadyIsStable()]
